@@ -267,7 +267,7 @@ def handle (op : String) (arg : String) : Option String :=
     some ("ok " ++ showIdx (populationQuery inds pid))
   | "c17.groups", [inds] => do
     let inds ← parseInds? inds
-    some ("ok " ++ showIdx (grouped inds))
+    some ("ok " ++ String.intercalate ";" ((populations inds).map (fun kg => s!"{kg.1}:" ++ showIdx kg.2)))
   | "c17.table", [inds] => do
     let inds ← parseInds? inds
     some ("ok " ++ showMat toString (tableRows inds))
@@ -306,7 +306,9 @@ def handle (op : String) (arg : String) : Option String :=
     match ← parseList? parseInt? a with
     | [mn, index] => some (match findOptimum inds (mn != 0) index.toNat with
         | none => "raise"
-        | some o => s!"ok {o.idx}")
+        | some o => match o.costs[index.toNat]? with
+          | none => "raise"
+          | some c => s!"ok {o.idx},{c}")
     | _ => none
   | "c17.eps", [r, c] => do
     let r ← parseMat? parseRat? r
